@@ -862,6 +862,8 @@ def jrw(s):
         w.update(s["lhs"])
         for a in s["args"]:
             jnames(a, r)
+        for a in (s.get("kw") or {}).values():
+            jnames(a, r)
     elif s["k"] in ("raise", "fail"):
         pass
     else:
@@ -952,6 +954,11 @@ def gen_phase(rng, who, shared_persist, idstyle, features):
         elif feat == "ivar":        # `i` as an ordinary temporary (the other method may use it as a loop identifier)
             A("i", expr(1))
             A(own_state, ["+", V("i"), V(own_state)])
+        elif feat == "kwcall":       # a statement-level call that passes a per-step temporary as a KEYWORD argument
+            stmts.append({"id": sid(), "k": "call", "lhs": ["k"], "fn": "<func>g", "args": [V(own_state)], "kw": {"y": V("tmp")},
+                          "cond": None})
+            defined.append("k")
+            A(own_p, ["+", V("k"), V(own_p)])
         elif feat == "sharedp":      # a persistent <p> variable that BOTH methods read (it must stay one variable)
             A(own_state, ["+", ["*", V("<p>gain"), V("tmp")], V(own_state)])
         elif feat in ("guardraise", "guardfail"):
@@ -1083,7 +1090,7 @@ def bounded(payload):
                     if len(samples) < 1 and a == "flag" and b == "loop":
                         samples.append(pr)
     # 1b. a persistent <p> variable both methods read; guarded Raise / FailStep statements (only a guard to rename)
-    extra = ["sharedp", "guardraise", "guardfail"]
+    extra = ["sharedp", "guardraise", "guardfail", "kwcall"]
     k = 0
     for a in extra + ["flag", "update"]:
         for b in extra + ["flag", "update"]:
